@@ -20,6 +20,7 @@ def run(rep, prog, tier):
     r5(rep, prog)
     r7(rep, prog)
     r8(rep, prog)
+    r9(rep, prog)
     rep.rule("C12-R6", "score memo invalidation (shared with C13-R2): a scorer whose score() memoises its result in a field of self (RequiredOptionalScorer.score_cache) stores into that field in every DocSet method that moves a sub-docset — advance, seek and seek_danger — so the score reported for a document is the one computed for that document, however it was reached")
     from ..report import Retag
     from .c13 import memo_invalidation
@@ -74,6 +75,34 @@ def r8(rep, prog):
                   "`%s` builds its Bm25Weight from the `%s` field of EnableScoring::Enabled instead of `statistics_provider`: with a custom statistics provider this clause is scored on the local searcher's "
                   "statistics while term / phrase clauses of the same query follow the provider" % (b.id, fld), site=site(b, bi))
     rep.floor(R, "weight constructors reading EnableScoring::Enabled", n, 4)
+
+
+def r9(rep, prog):
+    """a match-all clause keeps its score contribution"""
+    from ..rules import dominating_guards, guard_evidence
+    R = "C12-R9"
+    rep.rule(R, "a match-all clause keeps its score: BooleanWeight::complex_scorer strips AllScorer clauses from its MUST and SHOULD lists (remove_and_count_all_and_empty_scorers) and only restores their match-all semantics. An AllScorer scores 1.0 per document; whether a clause is a bare AllScorer depends on the segment (a fast-field range or exists query returns one only when the whole column of that segment matches). So the stripping of MUST / SHOULD lists must be confined to the scoring-disabled case (a guard on scoring_enabled) — otherwise the score of a document depends on how the documents are split into segments, and explain() (which builds the clause with boost 1.0) disagrees with score()")
+    fid = next((n for n in prog.bodies if n.endswith("BooleanWeight::<TScoreCombiner>::complex_scorer")), None)
+    b = prog.bodies.get(fid) if fid else None
+    if b is None:
+        rep.fail(R, "anchor", "cannot establish: BooleanWeight::complex_scorer not found")
+        return
+    strips = [(bi, t) for bi, t in b.calls() if (t.get("res") or t.get("f") or "").endswith("remove_and_count_all_and_empty_scorers")]
+    rep.floor(R, "strip sites in complex_scorer (must, should, must_not)", len(strips), 3)
+    guarded = 0
+    for bi, t in strips:
+        ev = set()
+        for sb, arms, l in dominating_guards(b, bi):
+            ev |= guard_evidence(prog, b, l)
+            tr = trace_back(b, l)
+            if any(s[0] == "field" and s[2] == "scoring_enabled" for s in tr):
+                ev.add(("field", "scoring_enabled"))
+        if ("field", "scoring_enabled") in ev:
+            guarded += 1
+    # the MustNot list may always be stripped (an excluded clause contributes no score): two of the three sites need the guard
+    rep.check(guarded >= 2, R, "AllScorer clauses are only stripped from MUST / SHOULD when scores are not needed", "%d of %d strip sites are guarded by scoring_enabled" % (guarded, len(strips)),
+              "BooleanWeight::complex_scorer strips AllScorer clauses from its MUST and SHOULD lists whether or not scoring is enabled (%d of %d strip sites depend on scoring_enabled): the 1.0 such a clause "
+              "contributes is lost exactly in the segments where the clause happens to match every document" % (guarded, len(strips)), site=site(b, strips[0][0]) if strips else b.span)
 
 
 def r4(rep, prog):
